@@ -16,20 +16,28 @@ use plonky2_field::goldilocks_field::GoldilocksField as F;
 type C = PoseidonGoldilocksConfig;
 const D: usize = 2;
 
+/// The honest prover is randomised (`randomize_unused_pi_wires`), so "the valid proof" is a set: the proof
+/// made by this process plus the committed seed-corpus files, which were emitted by the honest prover in an
+/// earlier process (`PV_FUZZ_EMIT_SEEDS`) and are admitted only while they still decode and verify.
 struct Fixture {
     data: CircuitData<F, C, D>,
-    proof_tree: serde_json::Value,
-    comp_tree: serde_json::Value,
+    plain_valid: Vec<serde_json::Value>,
+    comp_valid: Vec<serde_json::Value>,
 }
+
+const SEED_PLAIN: &[u8] = include_bytes!("../corpus-seed/decode_proof/valid_plain");
+const SEED_COMP: &[u8] = include_bytes!("../corpus-seed/decode_proof/valid_compressed");
 
 fn fixture() -> &'static Fixture {
     static FX: OnceLock<Fixture> = OnceLock::new();
     FX.get_or_init(|| {
-        // a small circuit with few FRI queries so that encodings are short (fast mutation)
+        // a small circuit with few FRI queries so that encodings are short (fast mutation), yet with the
+        // margin lde_bits*queries + pow >= 48 of DESIGN.md so that a chance acceptance of a changed value
+        // (probability <= 2^-48 per attempt) is out of reach of any campaign length
         let mut config = CircuitConfig::standard_recursion_config();
-        config.fri_config.num_query_rounds = 3;
-        config.fri_config.proof_of_work_bits = 2;
-        config.security_bits = 11;
+        config.fri_config.num_query_rounds = 8;
+        config.fri_config.proof_of_work_bits = 8;
+        config.security_bits = 32;
         let mut b = CircuitBuilder::<F, D>::new(config);
         let x = b.add_virtual_target();
         let y = b.add_virtual_target();
@@ -53,12 +61,63 @@ fn fixture() -> &'static Fixture {
             let _ = std::fs::write(format!("{dir}/valid_plain"), a);
             let _ = std::fs::write(format!("{dir}/valid_compressed"), c);
         }
-        Fixture {
-            proof_tree: serde_json::to_value(&proof).unwrap(),
-            comp_tree: serde_json::to_value(&comp).unwrap(),
-            data,
+        assert!(data.common.degree_bits() + config_rate_bits(&data) >= 5, "fixture margin");
+        let mut plain_valid = vec![serde_json::to_value(&proof).unwrap()];
+        let mut comp_valid = vec![strip_indices(serde_json::to_value(&comp).unwrap())];
+        if SEED_PLAIN.len() > 1 {
+            if let Ok(p) = ProofWithPublicInputs::<F, C, D>::from_bytes(SEED_PLAIN[1..].to_vec(), &data.common) {
+                if data.verify(p.clone()).is_ok() {
+                    plain_valid.push(serde_json::to_value(&p).unwrap());
+                }
+            }
         }
+        if SEED_COMP.len() > 1 {
+            if let Ok(p) = CompressedProofWithPublicInputs::<F, C, D>::from_bytes(SEED_COMP[1..].to_vec(), &data.common) {
+                if data.verify_compressed(p.clone()).is_ok() {
+                    comp_valid.push(strip_indices(serde_json::to_value(&p).unwrap()));
+                }
+            }
+        }
+        Fixture { data, plain_valid, comp_valid }
     })
+}
+
+fn config_rate_bits(data: &CircuitData<F, C, D>) -> usize {
+    data.common.config.fri_config.rate_bits
+}
+
+fn all_diffs(a: &serde_json::Value, b: &serde_json::Value, path: String, out: &mut Vec<String>) {
+    use serde_json::Value::*;
+    match (a, b) {
+        (Array(x), Array(y)) if x.len() == y.len() => x.iter().zip(y).enumerate().for_each(|(i, (p, q))| all_diffs(p, q, format!("{path}[{i}]"), out)),
+        (Object(x), Object(y)) if x.len() == y.len() => x.iter().for_each(|(k, p)| {
+            if let Some(q) = y.get(k) {
+                all_diffs(p, q, format!("{path}.{k}"), out)
+            }
+        }),
+        _ => {
+            if !pv::props::c18::tree_field_eq(a, b) && out.len() < 12 {
+                out.push(format!("{path}: {a} vs {b}"));
+            }
+        }
+    }
+}
+
+fn first_diff(a: &serde_json::Value, b: &serde_json::Value) -> String {
+    let mut v = vec![];
+    all_diffs(a, b, String::new(), &mut v);
+    if v.is_empty() {
+        "a structural difference (lengths or keys)".into()
+    } else {
+        v.join(" | ")
+    }
+}
+
+fn strip_indices(mut v: serde_json::Value) -> serde_json::Value {
+    if let Some(serde_json::Value::Object(m)) = v.pointer_mut("/proof/opening_proof/query_round_proofs") {
+        m.remove("indices");
+    }
+    v
 }
 
 fuzz_target!(|data: &[u8]| {
@@ -71,19 +130,21 @@ fuzz_target!(|data: &[u8]| {
         if let Ok(p) = ProofWithPublicInputs::<F, C, D>::from_bytes(body, &fx.data.common) {
             if fx.data.verify(p.clone()).is_ok() {
                 let t = serde_json::to_value(&p).unwrap();
-                assert!(pv::props::c18::tree_field_eq(&t, &fx.proof_tree), "verify accepted a decoded value that differs from the valid proof");
+                assert!(
+                    fx.plain_valid.iter().any(|v| pv::props::c18::tree_field_eq(&t, v)),
+                    "verify accepted a decoded value that differs from every honestly proved one: {}",
+                    first_diff(&t, &fx.plain_valid[0])
+                );
             }
         }
     } else if let Ok(p) = CompressedProofWithPublicInputs::<F, C, D>::from_bytes(body, &fx.data.common) {
         if fx.data.verify_compressed(p.clone()).is_ok() {
-            let mut t = serde_json::to_value(&p).unwrap();
-            let mut o = fx.comp_tree.clone();
-            for v in [&mut t, &mut o] {
-                if let Some(serde_json::Value::Object(m)) = v.pointer_mut("/proof/opening_proof/query_round_proofs") {
-                    m.remove("indices");
-                }
-            }
-            assert!(pv::props::c18::tree_field_eq(&t, &o), "verify_compressed accepted a decoded value that differs from the valid proof");
+            let t = strip_indices(serde_json::to_value(&p).unwrap());
+            assert!(
+                fx.comp_valid.iter().any(|v| pv::props::c18::tree_field_eq(&t, v)),
+                "verify_compressed accepted a decoded value that differs from every honestly proved one: {}",
+                first_diff(&t, &fx.comp_valid[0])
+            );
         }
     }
 });
